@@ -490,6 +490,88 @@ def r_default_tag(ck: Checker) -> None:
     ck.require_count("R-DEFAULT-TAG", 9)
 
 
+def r_options_readonly(ck: Checker) -> None:
+    """The mapping returned by _get_serialization_options() *is* the class-level slot of the call in progress.  A hook that stores into
+    it (a derived flag "parked" there) leaves the entry behind when the hook was reached through mashumaro's own to_dict (no as_dict
+    around it to reset the slot), and the next call reads it (positive pattern: a store / update / setdefault on a local bound to the
+    getter's result, or on the call itself)."""
+    from .state_rules import _raw_functions
+    n = 0
+    for m_ in ck.repo.nonlegacy():
+        for q, fn, _cls in _raw_functions(m_):
+            views = {st.targets[0].id for st in ast.walk(fn) if isinstance(st, ast.Assign) and len(st.targets) == 1 and isinstance(st.targets[0], ast.Name)
+                     and isinstance(st.value, ast.Call) and (dotted(st.value.func) or "").split(".")[-1] in ("_get_serialization_options",)}
+
+            def is_view(e: ast.expr) -> bool:
+                return (isinstance(e, ast.Name) and e.id in views) or (isinstance(e, ast.Call) and (dotted(e.func) or "").split(".")[-1] == "_get_serialization_options")
+            if not views and not any(isinstance(x, ast.Call) and (dotted(x.func) or "").split(".")[-1] == "_get_serialization_options" for x in ast.walk(fn)):
+                continue
+            n += 1
+            bad = None
+            for x in ast.walk(fn):
+                if isinstance(x, ast.Subscript) and isinstance(x.ctx, (ast.Store, ast.Del)) and is_view(x.value):
+                    bad = x
+                elif isinstance(x, ast.Call) and isinstance(x.func, ast.Attribute) and x.func.attr in ("update", "setdefault", "pop", "clear", "popitem", "__setitem__") and is_view(x.func.value):
+                    bad = x
+            what = f"{q} only reads the options of the call in progress"
+            if bad is not None:
+                ck.violation("R-OPT-OWN", (m_.rel, q), bad, what, positive=True,
+                             construct=f"{q}: {norm(bad)[:60]} writes into the option mapping of the call — the entry outlives the hook and is read by later calls")
+            else:
+                ck.holds("R-OPT-OWN", (m_.rel, q), fn, what)
+    if n < 3:
+        ck.incomplete("R-OPT-OWN", None, None, f"only {n} readers of the serialization options found (>= 3 confirmed by hand)")
+
+
+def r_serialize_overrides(ck: Checker) -> None:
+    """A class that overrides _serialize still goes through the mixin's hook for its fields (`super()._serialize()`): tag, key order and
+    dialect are applied there.  Positive pattern: an override that returns a mapping it has put together from the object's attributes."""
+    n = 0
+    for m_ in ck.repo.nonlegacy():
+        for c in [x for x in ast.walk(m_.tree) if isinstance(x, ast.ClassDef) and x.name != MIXIN]:
+            ov = next((st for st in c.body if isinstance(st, ast.FunctionDef) and st.name == "_serialize"), None)
+            if ov is None:
+                continue
+            n += 1
+            what = f"{c.name}._serialize converts the object's fields through the mixin (super()._serialize())"
+            handmade = [d for d in ast.walk(ov) if isinstance(d, ast.Dict) and any(isinstance(v, ast.Attribute) and isinstance(v.value, ast.Name) and v.value.id == "self" and v.attr != "__class__"
+                                                                                 for v in d.values if v is not None)]
+            calls_super = any(isinstance(x, ast.Call) and isinstance(x.func, ast.Attribute) and x.func.attr in ("_serialize", "to_dict") and isinstance(x.func.value, ast.Call)
+                              and dotted(x.func.value.func) == "super" for x in ast.walk(ov))
+            if handmade:
+                ck.violation("R-SORTED-OVERRIDE", (m_.rel, f"{c.name}._serialize"), handmade[0], what, positive=True,
+                             construct=f"{c.name}._serialize builds {norm(handmade[0])[:60]} by hand — key sorting (and whatever else the mixin's hook applies per call) does not reach objects of this class")
+            elif calls_super:
+                ck.holds("R-SORTED-OVERRIDE", (m_.rel, f"{c.name}._serialize"), ov, what)
+            elif all(isinstance(r.value, ast.Dict) and not r.value.keys for r in ast.walk(ov) if isinstance(r, ast.Return)):
+                ck.holds("R-SORTED-OVERRIDE", (m_.rel, f"{c.name}._serialize"), ov, f"{c.name}._serialize returns the empty placeholder (nothing to order or tag)")
+            else:
+                raise Unsupported(f"{c.name}._serialize: neither super()._serialize() nor a hand-built mapping", ov)
+    if n == 0:
+        ck.incomplete("R-SORTED-OVERRIDE", None, None, "no _serialize override found (Source._serialize confirmed by hand)")
+
+
+def r_frontends_via_entry(ck: Checker) -> None:
+    """The options and the dialect of a call reach nested objects only through the class-level slots that as_dict / as_obj publish.  A format
+    front-end (to_json, to_msgpck, to_yaml, from_* ...) that calls mashumaro's to_dict / from_dict itself hands the dialect to the root
+    object only (positive pattern: such a call outside _serialize / _deserialize / as_dict / as_obj)."""
+    c = ck.repo.cls(SER, MIXIN)
+    n = 0
+    for st in c.node.body:
+        if not isinstance(st, ast.FunctionDef) or st.name in ("_serialize", "_deserialize", "as_dict", "as_obj", "__post_serialize__") or st.name.startswith("__"):
+            continue
+        n += 1
+        bad = next((x for x in ast.walk(st) if isinstance(x, ast.Call) and isinstance(x.func, ast.Attribute) and x.func.attr in ("to_dict", "from_dict")), None)
+        what = f"{MIXIN}.{st.name} converts through as_dict / as_obj (which publish the options and the dialect for the nested objects)"
+        if bad is not None:
+            ck.violation("R-OPT-OWN", (c.mod.rel, f"{MIXIN}.{st.name}"), bad, what, positive=True,
+                         construct=f"{MIXIN}.{st.name}: {norm(bad)[:60]} bypasses as_dict / as_obj — the dialect and the options of this call never reach the nested objects")
+        else:
+            ck.holds("R-OPT-OWN", (c.mod.rel, f"{MIXIN}.{st.name}"), st, what)
+    if n < 6:
+        ck.incomplete("R-OPT-OWN", None, None, f"only {n} format front-ends found (>= 6 confirmed by hand)")
+
+
 def r_dialect_passed(ck: Checker) -> None:
     """mashumaro does not hand a dialect down to nested SerializableType values by itself: every nested object gets it from the class-level
     slot inside _serialize / _deserialize.  So every path of those two hooks that converts (to_dict / from_dict) either passes
@@ -553,6 +635,9 @@ def run(ck: Checker) -> None:
     ck.guard("R-OPT-OWN", lambda: r_opt_own(ck, slots))
     ck.guard("R-OPT-REENTRY", lambda: r_opt_reentry(ck))
     ck.guard("R-OPT-OWN", lambda: r_dialect_passed(ck))
+    ck.guard("R-OPT-OWN", lambda: r_frontends_via_entry(ck))
+    ck.guard("R-OPT-OWN", lambda: r_options_readonly(ck))
+    ck.guard("R-SORTED-OVERRIDE", lambda: r_serialize_overrides(ck))
     ck.guard("R-TAG-FIRST", lambda: r_tag_first(ck))
     ck.guard("R-SORTED-OVERRIDE", lambda: r_overrides(ck))
     ck.guard("R-DEFAULT-TAG", lambda: r_default_tag(ck))
